@@ -254,7 +254,9 @@ def plan_tasks(prop, tier, seed, n_corner, n_swarm, state_every=5, n_corner_all=
     if n_corner and n_corner < total:
         # a seeded random subset of the fixed cornerstone list (the thorough tier runs all of it); a strided subset
         # aliased with the variant order (stride 3 x 3 variants = one variant per family) and missed a mutant
-        ks = sorted(sorted(range(total), key=lambda k: h64(seed, "cornerstone-subset", k))[:n_corner])
+        always = set(_CTX.get("priority_cornerstones") or [])
+        ks = sorted(always | set(sorted((k for k in range(total) if k not in always),
+                                        key=lambda k: h64(seed, "cornerstone-subset", k))[:max(0, n_corner - len(always))]))
     for k in ks:
         tasks.append((prop, tier, seed, "cornerstone", k, ("steps" if k % (2 * state_every) == 0 else True) if k % state_every == 0 else False))
     for i in range(n_swarm):
@@ -331,6 +333,9 @@ def main(prop, judge, make, sizes, describe, argv=None):
 
     n_corner, n_swarm, wall_cap = sizes(args.tier)
     n_corner_all = (len(GEN.cornerstone_list(args.tier)) if prop == "C06" else n_corner) if n_corner else 0
+    if prop == "C06" and n_corner:
+        # the parameter-sweep sessions (one per family) are part of every tier
+        _CTX["priority_cornerstones"] = [k for k, e in enumerate(GEN.cornerstone_list(args.tier)) if e[3] == "sweep"]
     if args.runs is not None:
         n_swarm = args.runs
     if args.corner is not None:
